@@ -12,7 +12,7 @@ def exp_model(recs):
         e = z3.Real('exp%d' % len(recs)); recs.append((ex.dom.z(x), e)); return e
     return f
 
-def job_spectrum(res, n, N, spacing, buckets, cutoff_on):
+def job_spectrum(res, n, N, spacing, buckets, cutoff_on, wake_first=False):
     """(i) spectrum[b][k] == renorm * Re Z_k * |F_k|^2 with F = r2c of bunch b's profile alone in cells [0,n); intensity == df * sum_k spectrum; (iii),(iv) signs"""
     bld = field_build(); mod = load_module(bld, FIELD_MODS)
     snap, R, pre, plans, calib = field_world(bld, n, N, spacing, buckets, 1 if cutoff_on else 0)
@@ -24,6 +24,9 @@ def job_spectrum(res, n, N, spacing, buckets, cutoff_on):
     P = sym_profiles(ex, st, R, n, nb); Z = sym_impedance(ex, st, R, N)
     fc = z3.Real('fcut');
     if cutoff_on: st.pc += [fc > 0]
+    if wake_first:
+        # the statement is about one and the same field object: the spectrum must be the same whether or not the wake was requested before
+        Pold = sym_profiles(ex, st, R, n, nb, tag='old'); st = ex.run1(st, 'e_wake', [R['field']]); P = sym_profiles(ex, st, R, n, nb)
     st = ex.run1(st, 'e_csr', [R['field'], fc if cutoff_on else Fraction(0)]); account(res, ex, mod, [st])
     spec = get_reals(ex, st, st.retval, nb * N)
     pw = get_reals(ex, st, ex.run1(st, 'e_csrpower', [R['field']]).retval, nb)
@@ -45,7 +48,7 @@ def job_spectrum(res, n, N, spacing, buckets, cutoff_on):
             if not cutoff_on: bad.append(spec[b * N + k] != w)
             tot = tot + df * spec[b * N + k]
         badp.append(pw[b] != tot)
-    def cex(m): return {'replay': 'csr', 'n': n, 'N': N, 'spacing': spacing, 'buckets': list(buckets), 'rho': [mval(m, v) for v in P], 'z': [mval(m, c) for zz in Z for c in zz]}
+    def cex(m): return {'replay': 'csr', 'n': n, 'N': N, 'spacing': spacing, 'buckets': list(buckets), 'rho': [mval(m, v) for v in P], 'z': [mval(m, c) for zz in Z for c in zz], 'wake_first': wake_first}
     if not cutoff_on:
         prove(res, 'n=%d N=%d buckets %s: CSR spectrum[b][k] == delta_q^2 * Re Z_k * |r2c(profile of bunch b alone)_k|^2 for k <= N/2 and 0 above (all %d cells)' % (n, N, list(buckets), nb * N),
               st.pc, z3.Or(*bad), key='csr-spectrum-structure', cex_fn=cex)
@@ -92,7 +95,9 @@ def replayer(bld):
         n, N, sp, bk = c['n'], c['N'], c['spacing'], c['buckets']; nb = len(bk)
         import random as _r; rr = _r.Random(13)
         rho = [float(v) if v else rr.uniform(0.1, 1) for v in c['rho']]; z = [float(v) if v else rr.uniform(0, 1) for v in c['z']]
-        o = native_run(bld, {'n': n, 'N': N, 'spacing': sp, 'buckets': bk, 'ops': ['c'], 'prof0': rho, 'z': z, 'cutoff': 0.0}, 'c07')
+        if c.get('wake_first'):
+            o = native_run(bld, {'n': n, 'N': N, 'spacing': sp, 'buckets': bk, 'ops': ['w', 'c'], 'prof0': [rr.uniform(0.1, 1) for _ in rho], 'prof1': rho, 'z': z, 'cutoff': 0.0}, 'c07')
+        else: o = native_run(bld, {'n': n, 'N': N, 'spacing': sp, 'buckets': bk, 'ops': ['c'], 'prof0': rho, 'z': z, 'cutoff': 0.0}, 'c07')
         dq = f32(f32(12.0) / f32(n - 1)); dev = 0.0; scale = 1e-300
         for b in range(nb):
             F = np.fft.rfft(np.array(rho[b * n:(b + 1) * n] + [0.0] * (N - n)))
@@ -110,7 +115,7 @@ def main(tier):
         cfgs = [(4, 8, 0, (0,), 0), (4, 8, 0, (0,), 1), (4, 12, 5, (1, 0), 0), (3, 9, 4, (0, 1), 1), (5, 11, 0, (0,), 0)]
     else:
         cfgs = [(4, N, 5, b, c) for N in (8, 9, 10, 11, 12, 16) for b in ((0,), (0, 1), (1, 0)) if max(b) * 5 + 4 <= N for c in (0, 1)] + [(5, 20, 6, (0, 2), 0), (6, 13, 0, (0,), 1)]
-    jobs = [(job_spectrum, c) for c in cfgs] + [(job_parseval, (n,)) for n in ((3, 4) if tier == 'quick' else (2, 3, 4))]
+    jobs = [(job_spectrum, c) for c in cfgs] + [(job_spectrum, tuple(c) + (True,)) for c in cfgs if not c[4]] + [(job_parseval, (n,)) for n in ((3, 4) if tier == 'quick' else (2, 3, 4))]
     chk.bounds = {'configurations (n, N, spacing, buckets, cutoff)': cfgs, 'Parseval': 'N = 4 with FFTW\'s documented r2c/c2r written out exactly (rational twiddles), n = 2..4, single bunch in bucket 0, all profiles and complex impedances'}
     chk.assumptions = ['structure obligations: fftwf_execute uninterpreted (whole input buffer)', 'Parseval for N > 4 is not decided (irrational twiddles); it is a property of the DFT pair, the code-level content (which bins, which factor, which cells) is decided for all listed N',
                        'exp(): 0 < exp(t), and exp(t) <= 1 for t <= 0 (one fresh variable per call)', 'floats as reals; NaN/inf outside the claim']
